@@ -628,7 +628,12 @@ NUMBER_SPELLINGS = [
     "-1e-400", "0e0", "0e999", "12345678901234567890", "18446744073709551615", "18446744073709551616", "-9223372036854775808",
     "-9223372036854775809", "123456789012345678901234567890", "0.1234567890123456789", "1.0000000000000000000001",
     "9007199254740993", "9007199254740993.0", "1:30", "1:30:00", "190:20:30.15", "1,000", "١٢", "1.5.2", "--1", "+-1", "+", "-", ".",
-    "..5", "~", "0.", "-0.", "0.e0", "1.e-2", "+.5e+2", "6.02e23", "6.02E23", "6.02e+23", "-6.02e-23"]
+    "..5", "~", "0.", "-0.", "0.e0", "1.e-2", "+.5e+2", "6.02e23", "6.02E23", "6.02e+23", "-6.02e-23",
+    # integers beyond 64 bits with a sign or leading zeros, explicit tags
+    "+123456789012345678901234567890", "000123456789012345678901234567890", "-000123456789012345678901234567890",
+    "+36893488147419103232", "+18446744073709551616", "0018446744073709551616", "-0018446744073709551616",
+    "!!float +5", "!!float 007", "!!float -007", "!!int +7", "!!int 007", "!!float .5", "!!float 1_0", "!!float 123456789012345678901234567890",
+    "!!float +123456789012345678901234567890"]
 
 
 def spelling_programs(lit):
@@ -642,6 +647,24 @@ def spelling_programs(lit):
     yield {"kind": "eval", "fam": "spelling", "check": True,
            "values": {"n": raw, "p": {"fn::open::echo": {"n": raw}}, "i": "x ${n} y"},
            "base": {"n": raw, "m": {"k": raw}}}
+
+
+def zero_programs():
+    """null, false, 0, "", [] and {} (and absence) in an IMPORTED environment, alone and nested, each overridden by the importer
+    with each of them / left alone: exported more than once (as a property and inside the trace of the merged object)"""
+    zeros = ["null", "false", "0", '""', "[]", "{}", "[[]]", "{k: []}", "{k: {}}", "[{}]"]
+    overs = [None, "{}", "[]", "null", "5", "{k: 1}", '""']
+    for z in zeros:
+        for o in overs:
+            base = "values: {t: %s, keep: {t: %s, l: [%s]}, other: 1}\n" % (z, z, z)
+            own = [] if o is None else ["t: %s" % o]
+            own.append("keep: {m: 1}")
+            own.append("ref: ${keep}")
+            for check in (False, True):
+                yield {"kind": "eval", "fam": "zeros", "envs": {"base": base},
+                       "main": "imports: [base]\nvalues: {%s}\n" % ", ".join(own), "check": check}
+        yield {"kind": "eval", "fam": "zeros", "envs": {"base": "values: {t: %s}\n" % z, "mid": "imports: [base]\nvalues: {u: %s}\n" % z},
+               "main": "imports: [mid, base]\nvalues: {w: [\"${t}\", \"${u}\"], x: \"${imports.mid}\"}\n", "check": False}
 
 
 REGRESSION = [
@@ -756,6 +779,7 @@ def gen(rng, tier):
     # --- programs: every YAML number spelling at every position (exhaustive family, both tiers) -------------------
     for lit in NUMBER_SPELLINGS:
         cases.extend(spelling_programs(lit))
+    cases.extend(zero_programs())
     # --- programs: random ---------------------------------------------------------------------------------------------
     r = rng.fork("eval")
     for i in range(10000 if thorough else 300):
